@@ -28,10 +28,21 @@ import (
 	"time"
 )
 
-const (
-	repoDir  = "/repo"
-	verifDir = "/verif"
-)
+const repoDir = "/repo"
+
+// verifDir is the verification tree this binary belongs to: the parent of the
+// directory it was built into (<verif>/bin/verif). A snapshot of /verif (vp
+// run) therefore uses its own sources and writes its own evidence.
+var verifDir = func() string {
+	if exe, err := os.Executable(); err == nil {
+		if d := filepath.Dir(filepath.Dir(exe)); d != "" {
+			if _, err := os.Stat(filepath.Join(d, "harness")); err == nil {
+				return d
+			}
+		}
+	}
+	return "/verif"
+}()
 
 func goBin() string {
 	if g := os.Getenv("VERIF_GO"); g != "" {
